@@ -45,11 +45,12 @@ LEVEL_TEXT = ("Machine-checked: (1) for every import tree of strip/preserve decl
               "expressions, xsl:number level single/multiple and level any with or without from (including that the C++ "
               "backwards walk computes the Recommendation's count), key() with a node-set argument. Tied to the working tree by a "
               "translator (7 shouldStripSourceNode call sites, 15 ordering statements, 36 string-value sites outside "
-              "DOMServices that must hand on the execution context and 46 calls of the strip-aware funnel inside it, "
+              "DOMServices that must hand on the execution context, 46 calls of the strip-aware funnel inside it and the 34 "
+              "statements by which the stylesheet context forwards to its inner never-stripping XPath context, "
               "re-proved each run), by calling the real StylesheetRoot::shouldStripSourceNode on "
               "every text node and the real XPath/copy-of/key()/xsl:number through XalanTransformer on both source "
               "representations (XalanSourceTree, Xerces DOM; with and without DTD-declared element content), and by "
-              "differential transformations (with declarations on D vs without on D') over 31 stylesheet bodies.")
+              "differential transformations (with declarations on D vs without on D') over 34 stylesheet bodies (extension functions included).")
 LEVEL_NOTE = ("Trusted: Lean kernel; axioms propext/Classical.choice/Quot.sound only; the hand transcription of "
               "Stylesheet.cpp/StylesheetRoot.cpp/XPath.cpp NodeTester/DOMServices/ElemNumber.cpp/KeyTable and the evaluator "
               "model (validated by the correspondence streams, bounded by generator coverage); gen/c13_gen.py (renderers, "
@@ -97,6 +98,7 @@ THEOREMS = [
     "XalanModel.Props.C13.ordering_code_as_modelled",
     "XalanModel.Props.C13.string_value_sites_strip_aware",
     "XalanModel.Props.C13.string_value_funnel_passes_context",
+    "XalanModel.Props.C13.context_forwarding_as_reviewed",
 ]
 
 # ------------------------------------------------------------------------------------------------------
@@ -223,6 +225,12 @@ def judge(case, r):
             return ("model", kind + ".model", "impl A=%s model A=%s impl B=%s model B=%s" % (ia, ma, ib, mb))
         return ("ok", None, None)
     if ia != ib:
+        # xsl:strip-space is (wrongly) applied to result tree fragments turned into node-sets by xalan:nodeset /
+        # exsl:node-set: literal whitespace under an element the declarations strip, or source whitespace that was kept
+        # because of an xml:space="preserve" ancestor the copied fragment no longer has (known finding)
+        if case["body"] == "rtf-literal-ws" or (case["body"] == "ext-nodeset" and case_has_preserve_effect(case)):
+            return ("violation", "xform.rtf-nodeset-strip-space[%s]" % case["body"],
+                    "A=%s B=%s" % (unhex(ia)[:400], unhex(ib)[:400]))
         if "C" in r and r["C"][0] == ia:
             return ("violation", "xform.xml-space-preserve-ignored[%s]" % case["body"],
                     "result equals the result on the document stripped without regard to xml:space='preserve': A=%s B=%s"
@@ -409,6 +417,10 @@ CORPUS = [
      "doc": D(E(A_, T(" "), E(B_, T(" "), E(C_, T(" "), attrs=[("xml:space", "default")]), attrs=[("xml:space", "preserve")])))},
     {"kind": "xform", "body": "counts", "sheet": S([dec(True, ("*",))]),
      "doc": D(E(A_, T(" "), E(B_, T(" "), E(C_, T(" ")), attrs=[("xml:space", "preserve")])))},
+    # strip-space reaches into result tree fragments converted by exsl:node-set (known finding C13-rtf-nodeset-stripped)
+    {"kind": "xform", "body": "rtf-literal-ws", "sheet": S([dec(True, ("q", "", "a"))]), "doc": D(E(C_))},
+    {"kind": "xform", "body": "ext-nodeset", "sheet": S([dec(True, ("ns", G.U1))]),
+     "doc": D(E((G.U2, "a"), E(A_, E((G.U1, "b"), T("  ")), attrs=[("xml:space", "preserve")])))},
 ]
 for _b, _ in G.BODIES:
     CORPUS.append({"kind": "xform", "body": _b, "sheet": S([dec(True, ("*",)), dec(False, ("q", "", "b"))]), "doc": CORPUS_DOC})
